@@ -46,6 +46,8 @@ def install(sch, scripts, spawn_failure=False):
     env = sched.SimEnv(sch, scripts, allow_spawn_failure=spawn_failure)
     conc, pool = sched.make_futures(sch, thr)
     saved = (P.threading, P.Popen, P.psutil, P.time, P.concurrent, cfb.threading)
+    saved_registry = P.ExecutorRegistry._instance
+    P.ExecutorRegistry._instance = None  # a fresh registry per execution (the singleton would remember executors of earlier executions)
     P.threading = thr
     P.Popen = env.Popen
     P.psutil = env.psutil()
@@ -55,6 +57,7 @@ def install(sch, scripts, spawn_failure=False):
 
     def restore():
         P.threading, P.Popen, P.psutil, P.time, P.concurrent, cfb.threading = saved
+        P.ExecutorRegistry._instance = saved_registry
 
     c = Ctx()
     c.P, c.thr, c.env, c.sch, c.pool = P, thr, env, sch, pool
@@ -179,6 +182,27 @@ def h_double(c):
     t.join()
 
 
+def h_double_registry(c):
+    """as h_double, but the forceful shutdown comes through the registry (what halmos's exit handler calls): an executor whose graceful
+    shutdown is in progress must still be shut down by it"""
+    P = c.P
+    ex = P.PopenExecutor()
+    P.ExecutorRegistry().register(ex)  # as halmos.solve.FunctionContext does for its executor
+    f1 = P.PopenFuture(["solver", "q1"])
+    c.futs = [f1]
+    ex.submit(f1)
+
+    def graceful():
+        graceful_shutdown(c, ex)
+
+    t = c.thr.Thread(target=graceful)
+    t.start()
+    P.ExecutorRegistry().shutdown_all()
+    c.sch.note("shutdown-returned")
+    get_result(c, f1, "w1")
+    t.join()
+
+
 def h_two_submitters(c):
     """two submitting threads and a forceful shutdown"""
     P = c.P
@@ -253,6 +277,7 @@ HARNESSES = {
     "timeout": ([UNSAT], False, h_timeout),
     "after": ([UNSAT, UNSAT], False, h_after),
     "double": ([UNSAT], False, h_double),
+    "double-registry": ([UNSAT], False, h_double_registry),
     "two-submitters": ([UNSAT, UNSAT], False, h_two_submitters),
     "spawn-failure": ([UNSAT], True, h_timeout),
     "solve": ([UNSAT], False, h_solve),
